@@ -1317,23 +1317,35 @@ class SegmentationImage:
         """
         from rasterio.features import shapes
 
-        polygons = list(shapes(self.data.astype('int32'), connectivity=8))
+        # do not include polygons for background (label = 0)
+        polygons = list(shapes(self.data.astype('int32'), connectivity=8,
+                               mask=(self.data != 0)))
         polygons.sort(key=lambda x: x[1])  # sort in label order
 
-        # do not include polygons for background (label = 0)
-        return polygons[1:]
+        return polygons
 
     @lazyproperty
     def polygons(self):
         """
         A list of `Shapely <https://shapely.readthedocs.io/en/stable/>`_
         polygons representing each source segment.
-        """
-        from shapely import transform
-        from shapely.geometry import shape
 
-        polygons = [shape(geo_poly[0]) for geo_poly in self._geo_polygons
-                    if geo_poly[1] != 0]
+        There is one item per label, in label order. A label whose
+        pixels are not connected is represented by a Shapely
+        ``MultiPolygon``.
+        """
+        from itertools import groupby
+
+        from shapely import transform
+        from shapely.geometry import MultiPolygon, shape
+
+        # _geo_polygons is sorted by label with one item per connected
+        # region
+        polygons = []
+        for _, group in groupby(self._geo_polygons, key=lambda x: x[1]):
+            parts = [shape(geo_poly[0]) for geo_poly in group]
+            polygons.append(parts[0] if len(parts) == 1
+                            else MultiPolygon(parts))
 
         # shift the vertices so that the (0, 0) origin is at the
         # center of the lower-left pixel
@@ -1365,8 +1377,9 @@ class SegmentationImage:
         """
         from regions import Regions
 
-        return Regions([_shapely_polygon_to_region(poly)
-                        for poly in self.polygons])
+        return Regions([_shapely_polygon_to_region(part)
+                        for poly in self.polygons
+                        for part in getattr(poly, 'geoms', [poly])])
 
     def to_patches(self, *, origin=(0, 0), scale=1.0, **kwargs):
         """
@@ -1404,8 +1417,10 @@ class SegmentationImage:
 
         patches = []
         for poly in self.polygons:
-            xy = self._get_polygon_vertices(poly, origin=origin, scale=scale)
-            patches.append(Polygon(xy, **patch_kwargs))
+            for part in getattr(poly, 'geoms', [poly]):
+                xy = self._get_polygon_vertices(part, origin=origin,
+                                                scale=scale)
+                patches.append(Polygon(xy, **patch_kwargs))
 
         return patches
 
